@@ -12,7 +12,8 @@ import vlib
 LEVEL_TEXT = ('Lean 4 theorem, for all input fields/offsets, sampling ratios, integer splits of the tilt shift, output extents (whole '
               'array or mask box) and propagation shapes: each output field of propagate_dft equals, at every global output '
               'coordinate inside out_extent ∩ prop_extent, the unitary dft2 sum evaluated at that coordinate relative to the '
-              'shifted centre, and is exactly zero elsewhere; shape/prop_shape/mask only select samples; mask box = bounding '
+              'shifted centre, and is exactly zero elsewhere; Wavefront.field[i][j] is the sum of these over the input fields '
+              '(insert proved on the generated index kernel); shape/prop_shape/mask only select samples; mask box = bounding '
               'rows/cols re-centred at floor(S/2). The window arithmetic is regenerated from propagate.py/extent.py on every run; '
               'alpha, the dft2 call and Wavefront.field are a hand model checked against the implementation. Partial: see note.')
 LEVEL_NOTE = ('Partial: the statement is about the dft2 model (its reduction to the defining double sum is C01 dft2_eq_defining_sum); '
